@@ -333,6 +333,28 @@ def run(ctx, anchors=None):
                      "%s releases %s memory with %s (sources: %s)" % (f.name, kind, rel[kind], ", ".join(sorted(fams)) or "not resolved"),
                      "%s releases `%s` with %s but it is allocated with %s: mismatched deallocation" % (f.name, txt, rel[kind], "/".join(sorted(bad))))
     ctx.floor("R15.2", nd, 15, "deallocation sites in btcdeb-authored units")
+    # single owner: a heap object whose pointer is copied from field P into field Q must not be deleted through both
+    deleted = {}      # (record, field) -> site
+    copies = []       # ((rec_q, q), (rec_p, p), site)
+    for f in fb.funcs.values():
+        if not auth(f):
+            continue
+        for n in f.nodes():
+            if n["k"] == "delete":
+                e = n["e"]
+                while e is not None and e.get("k") == "cast":
+                    e = e["e"]
+                if e is not None and e.get("k") == "mem" and e.get("rec"):
+                    deleted.setdefault((e["rec"], e["n"]), (f, n))
+            if n["k"] == "assign" and n["lhs"].get("k") == "mem" and n["rhs"].get("k") == "mem" and "*" in (n["lhs"].get("ty") or "") and "*" in (n["rhs"].get("ty") or ""):
+                copies.append(((n["lhs"].get("rec"), n["lhs"]["n"]), (n["rhs"].get("rec"), n["rhs"]["n"]), (f, n)))
+    for (q, p_, (f, n)) in copies:
+        ctx.site()
+        both = q in deleted and p_ in deleted
+        ctx.inst(not both, "R15.2", "single-owner=%s::%s<-%s::%s" % (q[0], q[1], p_[0], p_[1]), f.loc(n),
+                 "the object shared by %s::%s and %s::%s is deleted through at most one of them" % (q[0], q[1], p_[0], p_[1]),
+                 "%s::%s is a copy of %s::%s (at %s) and BOTH are deleted (%s and %s): double free when both owners release it"
+                 % (q[0], q[1], p_[0], p_[1], f.loc(n), deleted[q][0].loc(deleted[q][1]) if q in deleted else "", deleted[p_][0].loc(deleted[p_][1]) if p_ in deleted else ""))
 
     # ---------------------------------------------------------------- R15.3
     IDX = {"txin_vout_index": ("vout", "txin"), "txin_index": ("vin", "tx")}
@@ -673,6 +695,7 @@ def callers_establish(fb, prog, ctor, a, K):
 
 
 MUTANTS = [
+    dict(name="instance-dtor-deletes-shared-tce", file="instance.h", find="        delete env;\n", replace="        delete env;\n        delete tce;\n", expect=["R15.2:single-owner=InterpreterEnv::tce<-Instance::tce"]),
     dict(name="delete-strdup-memory", file="instance.cpp", find="        free(const_cast<char*>(push_del.back()));", replace="        delete push_del.back();", expect=["R15.2:dealloc=Instance::configure_tx_txin"]),
     dict(name="free-new-memory", file="cliargs.h", find="delete long_options.back();", replace="free(long_options.back());", expect=["R15.2:dealloc=cliargs::~cliargs"]),
     dict(name="unbounded-flag-buffer", file="btcdeb.cpp", find="        } else if (j < sizeof(buf) - 1) {\n            buf[j++] = mod[i];\n        } else {", replace="        } else if (true) {\n            buf[j++] = mod[i];\n        } else {", expect=["R15.4:array=buf@svf_parse_flags"]),
